@@ -41,6 +41,8 @@ class BasicFifoH(MethodHarness):
             v.append(f"write.ready: done={wr.done} en={wr.en} level={len(q)}")
         if cl.done != cl.en:
             v.append(f"clear.ready: done={cl.done} en={cl.en}")
+        if v:
+            return v, q
         if rd.done and rd.out != q[0]:
             v.append(f"read.data: got {rd.out} expected {q[0]}")
         if pk.done and pk.out != q[0]:
